@@ -23,6 +23,7 @@ func main() {
 		panic(err)
 	}
 	rename := map[string]string{}
+	valueNames := map[string]bool{}
 	has := func(n string) bool {
 		l := strings.ToLower(n)
 		return strings.HasPrefix(l, strings.ToLower(prefix))
@@ -47,6 +48,7 @@ func main() {
 				case *ast.ValueSpec:
 					for _, n := range y.Names {
 						add(n.Name)
+						valueNames[n.Name] = true
 					}
 				}
 			}
@@ -69,8 +71,10 @@ func main() {
 		case *ast.KeyValueExpr:
 			if id, ok := x.Key.(*ast.Ident); ok {
 				// key of a struct literal is a field name; key of a map literal is an expression.
-				// heuristic: skip only if no top-level const/var of that name is used as a map key elsewhere
-				skip[id] = true
+				// heuristic: a key that names a top-level const/var of this file is a map key
+				if !valueNames[id.Name] {
+					skip[id] = true
+				}
 			}
 		case *ast.InterfaceType:
 			for _, fl := range x.Methods.List {
